@@ -25,6 +25,18 @@ type FlowOpts struct {
 // satisfying pred, and returns the witness.
 func Derives(v ssa.Value, pred func(ssa.Value) bool, o FlowOpts) (ssa.Value, bool) {
 	seen := map[ssa.Value]bool{}
+	// ref is the load through which the current memory location is being read:
+	// with o.At set (flow-sensitive mode) a load sees only stores that may precede it.
+	var ref ssa.Instruction
+	visible := func(st *ssa.Store) bool {
+		if o.At == nil || ref == nil {
+			return true
+		}
+		if st.Parent() != ref.Parent() {
+			return true
+		}
+		return MayPrecede(st, ref)
+	}
 	var walk func(v ssa.Value, depth int) (ssa.Value, bool)
 	walk = func(v ssa.Value, depth int) (ssa.Value, bool) {
 		if v == nil || seen[v] || depth > 60 {
@@ -51,6 +63,9 @@ func Derives(v ssa.Value, pred func(ssa.Value) bool, o FlowOpts) (ssa.Value, boo
 		case *ssa.UnOp:
 			if x.Op == token.MUL {
 				// load: from alloc / field address → stores to the same address
+				saved := ref
+				ref = x
+				defer func() { ref = saved }()
 				if w, ok := walk(x.X, depth+1); ok {
 					return w, true
 				}
@@ -117,6 +132,9 @@ func Derives(v ssa.Value, pred func(ssa.Value) bool, o FlowOpts) (ssa.Value, boo
 			// value stored into the alloc (address-taken locals), or into an element /
 			// field of it (varargs arrays, composite literals)
 			for _, st := range StoresTo(x, nil) {
+				if !visible(st) {
+					continue
+				}
 				if w, ok := walk(st.Val, depth+1); ok {
 					return w, true
 				}
@@ -125,7 +143,7 @@ func Derives(v ssa.Value, pred func(ssa.Value) bool, o FlowOpts) (ssa.Value, boo
 				var vals []ssa.Value
 				Instrs(fn, func(in ssa.Instruction) {
 					st, ok := in.(*ssa.Store)
-					if !ok || st.Addr == ssa.Value(x) {
+					if !ok || st.Addr == ssa.Value(x) || !visible(st) {
 						return
 					}
 					a := st.Addr
